@@ -147,8 +147,9 @@ pub fn for_property(prop: &str) -> Vec<Family> {
             Family { name: "panic", what: "one operation panics (the position enumerates 11 kinds of operation x runner context); afterwards every kind of call on the panicked object, ordinary programs on healthy objects, and a capacity probe", gen: gen_panic, quick_runs: Q / 2, thorough_runs: T / 2, sweep_width: 11, gen_at: Some(g_panic_sweep) },
         ],
         "C16" => vec![
-            f("pipe-drop", "output stream dropped while the input stays open and silent", gen_pipe_drop, Q / 2, T / 2),
+            f("pipe-drop", "output stream dropped while the input stays open and silent", gen_pipe_drop, Q * 3 / 8, T * 3 / 8),
             sw("pipe-drop-sweep", "the drop of the output injected at every scheduling point of the context polling the input", gen_pipe_drop_sweep, Q / 2, T / 2, 64),
+            f("pipe-chain", "two pipes chained (pipe into pipe, pipe into pipe_in): the first pipe's output is dropped from wherever the second pipe is shut down; sole-owner variants", gen_pipe_chain, Q / 8, T / 8),
         ],
         "C17" => vec![
             f("pool", "maximum 0..3 lazily grown, threads racing to spawn, limit raised/lowered/extra threads/despawn between phases", gen_pool, Q * 3 / 8, T * 3 / 8),
